@@ -113,6 +113,38 @@ Proof.
   repeat split; reflexivity.
 Qed.
 
+(** the grid window [c0 - thickness, c0 + thickness], c0 = centre + thickness*ln2/2 (the
+    geometric centre before the ln2/2 shift towards the source peak), contains the interval
+    [z_f - L_f, z_f + L_f] of EVERY wall (z_f = -d_f L_f), and is the smallest such window *)
+Lemma grid_contains_full e fs v f : In f fs ->
+  let thick := updateGrid_arg2 e fs v in
+  let c0 := updateGrid_arg3 e fs v + thick * ln 2 / 2 in
+  c0 - thick <= (-1 - offset f) * width f /\ (1 - offset f) * width f <= c0 + thick.
+Proof.
+  intros Hf. unfold updateGrid_arg2, updateGrid_arg3.
+  match goal with |- context [maxR (map ?g fs)] =>
+    pose proof (maxR_ub (map g fs) (g f) (in_map g fs f Hf)) as HM; set (M := maxR (map g fs)) in * end.
+  match goal with |- context [minR (map ?g fs)] =>
+    pose proof (minR_lb (map g fs) (g f) (in_map g fs f Hf)) as Hm; set (m := minR (map g fs)) in * end.
+  cbv beta in HM, Hm. cbv zeta. split; lra.
+Qed.
+Lemma grid_tight_full e fs v : fs <> [] ->
+  let thick := updateGrid_arg2 e fs v in
+  let c0 := updateGrid_arg3 e fs v + thick * ln 2 / 2 in
+  (exists f, In f fs /\ (1 - offset f) * width f = c0 + thick) /\
+  (exists f, In f fs /\ (-1 - offset f) * width f = c0 - thick).
+Proof.
+  intros Hne. unfold updateGrid_arg2, updateGrid_arg3. cbv zeta. split.
+  - match goal with |- context [maxR (map ?g fs)] =>
+      destruct (proj1 (in_map_iff g fs _) (maxR_in (map g fs) (map_neq_nil g fs Hne))) as [f [E Hf]];
+      exists f; split; [exact Hf|]; set (M := maxR (map g fs)) in * end.
+    cbv beta in E. lra.
+  - match goal with |- context [minR (map ?g fs)] =>
+      destruct (proj1 (in_map_iff g fs _) (minR_in (map g fs) (map_neq_nil g fs Hne))) as [f [E Hf]];
+      exists f; split; [exact Hf|]; set (m := minR (map g fs)) in * end.
+    cbv beta in E. lra.
+Qed.
+
 (** ** 4. re-pinning = z-translation *)
 Lemma profile_shift1 z c lo hi w o : w <> 0 ->
   wallProfile_ret0 z lo hi w (o - c / w) = wallProfile_ret0 (z - c) lo hi w o /\
@@ -231,6 +263,35 @@ Proof.
     destruct offsets; reflexivity.
 Qed.
 
+(** ** 7. clipping of the incoming wall parameters (every field, also the pinned one) *)
+Ltac minmax :=
+  unfold Rmax, Rmin;
+  repeat match goal with |- context [Rle_dec ?x ?y] =>
+    lazymatch x with context [Rle_dec _ _] => fail | _ =>
+    lazymatch y with context [Rle_dec _ _] => fail | _ => destruct (Rle_dec x y) end end end;
+  try lra.
+
+Lemma clip_box b : offLo b < 0 < offHi b ->
+  clip_offsets b 0 = 0 /\
+  (forall d, (11 / 10) * offLo b <= clip_offsets b d <= offHi b) /\
+  (forall d, (11 / 10) * offLo b <= d <= (9 / 10) * offHi b -> clip_offsets b d = d) /\
+  (0 < thickLo b -> (11 / 10) * thickLo b <= (9 / 10) * thickHi b -> 0 < Tnucl b ->
+   forall w, thickLo b / Tnucl b <= clip_widths b w <= thickHi b / Tnucl b).
+Proof.
+  intros [H1 H2]. split; [|split; [|split]].
+  - unfold clip_offsets. minmax.
+  - intros d. unfold clip_offsets. minmax.
+  - intros d Hd. unfold clip_offsets. minmax.
+  - intros Hl Hlh HT w.
+    assert (Hi : 0 < / Tnucl b) by (apply Rinv_0_lt_compat, HT).
+    assert (A : 0 < thickLo b * / Tnucl b) by (apply Rmult_lt_0_compat; assumption).
+    assert (B : (11 / 10) * (thickLo b * / Tnucl b) <= (9 / 10) * (thickHi b * / Tnucl b)).
+    { replace ((11 / 10) * (thickLo b * / Tnucl b)) with ((11 / 10) * thickLo b * / Tnucl b) by ring.
+      replace ((9 / 10) * (thickHi b * / Tnucl b)) with ((9 / 10) * thickHi b * / Tnucl b) by ring.
+      apply Rmult_le_compat_r; [lra|exact Hlh]. }
+    unfold clip_widths, Rdiv in *. minmax.
+Qed.
+
 (** =================================================================================== *)
 (** ** The obligations *)
 
@@ -274,6 +335,20 @@ Theorem grid_envelope_relabel_invariant : forall e T fs v, wf_relab (length fs) 
   updateGrid_arg3 e (relabel T fs) v = updateGrid_arg3 e fs v.
 Proof. exact grid_relabel_full. Qed.
 Print Assumptions grid_envelope_relabel_invariant.
+
+Theorem grid_envelope_contains_all_walls : forall e fs v,
+  let thick := updateGrid_arg2 e fs v in
+  let c0 := updateGrid_arg3 e fs v + thick * ln 2 / 2 in
+  (forall f, In f fs ->
+     c0 - thick <= (-1 - offset f) * width f /\ (1 - offset f) * width f <= c0 + thick) /\
+  (fs <> [] -> (exists f, In f fs /\ (1 - offset f) * width f = c0 + thick) /\
+               (exists f, In f fs /\ (-1 - offset f) * width f = c0 - thick)).
+Proof.
+  intros e fs v. cbv zeta. split.
+  - intros f Hf. exact (grid_contains_full e fs v f Hf).
+  - intros Hne. exact (grid_tight_full e fs v Hne).
+Qed.
+Print Assumptions grid_envelope_contains_all_walls.
 
 (** pinning field p instead (offsets d_i - (L_p/L_i) d_p) is the z-translation by L_p d_p:
     same walls, same grid thickness and tails, grid centre moved along *)
@@ -343,6 +418,24 @@ Theorem toWallParams_inverts_packing : forall n widths offsets, length widths = 
   toWallParams_offsets n (minimize_x0 widths offsets) = 0 :: tl offsets.
 Proof. exact toWallParams_roundtrip. Qed.
 Print Assumptions toWallParams_inverts_packing.
+
+(** the clipping applied to the incoming parameters keeps the pinned offset at 0, is the
+    identity well inside the bounds and puts the widths inside the minimiser's bounds.
+    _partial: the LOWER offset side is only 1.1*offLo, which for the (negative) configured
+    offLo = -10 is -11, i.e. OUTSIDE the minimiser's bound and not the mirror image of the
+    upper side 0.9*offHi = 9 (see the Example below); scipy clips the start vector itself. *)
+Theorem clip_keeps_pin_partial : forall b, offLo b < 0 < offHi b ->
+  clip_offsets b 0 = 0 /\
+  (forall d, (11 / 10) * offLo b <= clip_offsets b d <= offHi b) /\
+  (forall d, (11 / 10) * offLo b <= d <= (9 / 10) * offHi b -> clip_offsets b d = d) /\
+  (0 < thickLo b -> (11 / 10) * thickLo b <= (9 / 10) * thickHi b -> 0 < Tnucl b ->
+   forall w, thickLo b / Tnucl b <= clip_widths b w <= thickHi b / Tnucl b).
+Proof. exact clip_box. Qed.
+Print Assumptions clip_keeps_pin_partial.
+Example clip_lower_side_outside_bounds :
+  let b := mk_bcfg (1 / 10) 100 (-10) 10 100 in
+  clip_offsets b (-20) = -11 /\ clip_offsets b (-20) < offLo b /\ clip_offsets b 20 = 9.
+Proof. cbn [offLo offHi]. unfold clip_offsets. cbn [offLo offHi]. repeat split; minmax. Qed.
 
 (** Fields helpers commute with a permutation of the columns (= relabelling of fields) *)
 Theorem fields_axes : forall (A : Type) (d : A) (p : list nat) (M lo hi : list (list A)),
